@@ -9,6 +9,7 @@ SESSION_TRACE_CFG = """SPECIFICATION TraceSpec
 CONSTANTS
   Dev = @DEV@
   Meaning <- TraceMeaning
+  ExtMon <- SessExtMon
   CheckRef = @REF@
 INVARIANT NotAccepted
 CHECK_DEADLOCK FALSE
@@ -22,15 +23,16 @@ def env_key(k):
     """server-maintained information under $SYS (version, uptime, value count ...): it changes with
     time and with the build, it is environment, not behaviour - dropped from replies and events.
     $SYS/clients/... is behaviour and stays."""
-    return bool(k) and k[0] == "$SYS" and (len(k) < 2 or k[1] != "clients")
+    return bool(k) and k[0] == "$SYS" and (len(k) < 2 or k[1] not in ("clients", "subscriptions", "locks"))
 
 
-def strip_env(rep):
+def strip_env(rep, parent_len=1):
     if not isinstance(rep, dict):
         return rep
     if rep.get("t") == "kvs":
         rep = dict(rep, kvs=[kv for kv in rep["kvs"] if not env_key(kv[0])])
-    if rep.get("t") == "list":
+    if rep.get("t") == "list" and parent_len == 1:
+        # children of $SYS (asked for as $SYS or through a one-segment pattern)
         rep = dict(rep, list=[x for x in rep["list"] if x not in ENV_NAMES])
     return rep
 
@@ -68,7 +70,7 @@ def postprocess(src, dst):
                     r["ret"] = INF
                 r.pop("wait", None)
                 if "rep" in r:
-                    r["rep"] = strip_env(r["rep"])
+                    r["rep"] = strip_env(r["rep"], len(r.get("parent", r.get("pat", [None])) or []))
                 log.append(r)
             if v.get("closed") and not closed:
                 # the server ended the session: that happened when it read the first line it did not
@@ -111,7 +113,7 @@ def postprocess(src, dst):
             streams[k] = lst
         total += sum(len(l) for l in sess.values()) + 1
         out.append({"sessions": {k: ({"log": v, "cid": cids[k]} if cids[k] != k else {"log": v}) for k, v in sess.items()},
-                    "streams": streams,
+                    "streams": streams, "extmon": bool(sc.get("extmon")),
                     "exact": sc.get("exact", []), "extra": sc.get("extra", []),
                     "auth_required": bool(sc.get("auth_required"))})
     with open(dst, "w") as f:
@@ -305,7 +307,15 @@ def gen_c13(rnd, tier):
             ss_.append({"op": "barrier", "n": 2})
         s2.append(it("c2", "get", key=k, wait=True))
         out.append({"sessions": {"c1": s1, "c2": s2, "c3": s3}})
-    return out
+    return with_extmon(rnd, out)
+
+
+def with_extmon(rnd, scs, share=0.35):
+    """part of the scenarios run against a server with extended monitoring on (the default setting)"""
+    for sc in scs:
+        if rnd.random() < share:
+            sc["extmon"] = True
+    return scs
 
 
 def gen_c17(rnd, tier):
@@ -324,7 +334,7 @@ def gen_c17(rnd, tier):
             return {"op": "proto", "c": name, "version": rnd.choice([0, 1, 9])}
         return rand_request(rnd, name, st["tids"], st["subs"], st["lss"], st["pubs"], v1=True, odd=True)
     n = 24 if tier == "quick" else 400
-    return [rounds_scenario(rnd, rnd.randint(2, 4), rnd.randint(3, 7), 2, mk) for _ in range(n)]
+    return with_extmon(rnd, [rounds_scenario(rnd, rnd.randint(2, 4), rnd.randint(3, 7), 2, mk) for _ in range(n)])
 
 
 GRANTS = [[], [["#"]], [["a", "#"]], [["a", "?"]], [["a", "b"]], [["?", "b"]], [["b"], ["a", "#"]], [["c", "d", "?"]]]
@@ -484,7 +494,7 @@ def gen_c20(rnd, tier):
             items += [{"op": "cget", "key": k} for k in keys]
             tasks["t%d" % (i + 1)] = items
         out.append({"tasks": tasks})
-    return out
+    return with_extmon(rnd, out)
 
 
 def gen_c20_buffer(rnd, tier):
